@@ -123,7 +123,7 @@ def run(repo: Repo, rep: Report) -> None:
                         inst.w.call("division_connected", inst.s, arg, k, g, roots=roots, allow_empty_group=allow_empty)
                         refs, cons = (ref_native if native else ref_forest)(n, edges, k, allow_empty, roots)
                         same, diff = compare(inst, refs, cons)
-                        if n <= 3 and not as_list:
+                        if n <= 4 and not as_list:
                             xitems.append((f"{'primitive' if native else 'forest'} route, {gname} {edges}, {k} regions, allow_empty_group={allow_empty}, roots={roots}", inst,
                                            [a for a in inst.arrays if a["user"]][0]["ids"],
                                            (lambda n=n, edges=edges, k=k, allow_empty=allow_empty, roots=roots: valid_labelings(n, edges, k, allow_empty, roots))))
